@@ -39,6 +39,11 @@ type cfg struct {
 	Down        []rule `json:"header_downstream,omitempty"`
 	Retry       string `json:"retry,omitempty"` // "", reset, readreset, closed, multi-ok
 	Extra       string `json:"extra,omitempty"`
+	// Stale: the backend drops the first attempt of a case when it arrives on
+	// a kept-alive connection that has served a request before (it reads the
+	// request and closes without answering, as a backend that is just timing
+	// the idle connection out does)
+	Stale bool `json:"stale_keepalive,omitempty"`
 }
 
 // env is what request placeholders expand to.
